@@ -236,6 +236,9 @@ Definition ev_of (e : event) (o : oentry) : Prop :=
   e_state e = o_state o /\ e_ver e = o_ver o.
 Definition published (w : world) (r : record) : Prop := exists e, In e (w_log w) /\ ev_of e (route 0%N r).
 
+(* events of a connector's source are produced outside the workflow: they announce no write *)
+Definition conn_topic (t : topic) : bool := match t with TConn _ => true | _ => false end.
+
 Record WI (w : world) : Prop := mkWI {
   wi_nodup : NoDup (map r_run (w_recs w));
   wi_lt : forall r, In r (w_recs w) -> (r_run r < w_nrun w)%N;
@@ -248,7 +251,7 @@ Record WI (w : world) : Prop := mkWI {
      still in the outbox or has been published *)
   wi_noid : w_noid w = (N.of_nat (length (w_hist w)) + 1)%N;
   wi_out : forall o, In o (w_outbox w) -> entry_at (w_hist w) o;
-  wi_logh : forall e, In e (w_log w) -> exists r, In r (w_hist w) /\ ev_of e (route 0%N r);
+  wi_logh : forall e, In e (w_log w) -> conn_topic (e_topic e) = false -> exists r, In r (w_hist w) /\ ev_of e (route 0%N r);
   wi_pub : forall k r, nth_error (w_hist w) k = Some r -> In (route (N.of_nat k + 1)%N r) (w_outbox w) \/ published w r;
   wi_one : older_finished (w_recs w);
   (* the outbox never holds two entries with one ID *)
@@ -359,7 +362,7 @@ Proof.
     + exists r'. cbn. rewrite (wi_noid w HW). split; [|split; [reflexivity|lia]].
       replace (N.to_nat (N.of_nat (length (w_hist w)) + 1) - 1)%nat with (length (w_hist w)) by lia.
       rewrite nth_error_app2 by lia. now rewrite Nat.sub_diag.
-  - intros e He. destruct (wi_logh w HW e He) as (x & Hx & Ex). exists x. split; [apply in_or_app; now left|exact Ex].
+  - intros e He Hc. destruct (wi_logh w HW e He Hc) as (x & Hx & Ex). exists x. split; [apply in_or_app; now left|exact Ex].
   - intros k x Hk. destruct (Nat.lt_ge_cases k (length (w_hist w))) as [Hlt|Hge].
     + rewrite nth_error_app1 in Hk by exact Hlt. destruct (wi_pub w HW k x Hk) as [A|A]; [left; apply in_or_app; now left|right; exact A].
     + rewrite nth_error_app2 in Hk by exact Hge. destruct (k - length (w_hist w))%nat as [|j] eqn:Ej; cbn in Hk; [|destruct j; discriminate].
